@@ -467,7 +467,17 @@ func (packet *PacketHandler) readData(readLength bool) error {
 			return err
 		}
 	}
-	packet.descriptionBuf.Grow(packet.dataLength)
+	// length field counts itself (and the tag of startup messages), so the rest can't be negative
+	if packet.dataLength < 0 {
+		return ErrInvalidPacketLength
+	}
+	// length is chosen by the peer: don't allocate more than maxPacketPreallocation before the data really arrives,
+	// io.CopyN grows the buffer as it reads
+	preallocate := packet.dataLength
+	if preallocate > maxPacketPreallocation {
+		preallocate = maxPacketPreallocation
+	}
+	packet.descriptionBuf.Grow(preallocate)
 	packet.logger.Debugln("Read data")
 	nn, err := io.CopyN(packet.descriptionBuf, packet.reader, int64(packet.dataLength))
 	return base.CheckReadWrite(int(nn), packet.dataLength, err)
@@ -504,6 +514,12 @@ const WithoutMessageType = 0
 
 // ErrUnsupportedPacketType error when recognized unsupported message type or new added to postgresql wire protocol
 var ErrUnsupportedPacketType = errors.New("unsupported postgresql message type")
+
+// ErrInvalidPacketLength error when length field of packet is less than size of the fields it covers
+var ErrInvalidPacketLength = errors.New("invalid length of postgresql packet")
+
+// maxPacketPreallocation limits size of buffer allocated according to packet's length field before reading packet's data
+const maxPacketPreallocation = 1024 * 1024
 
 // ErrNilPendingPacket error when took nil instead of pending packet
 var ErrNilPendingPacket = errors.New("nil pending packet")
